@@ -10,18 +10,25 @@ use vx_replay::{*, mpdfilter::{T, parse_filter}, mpdtok::mpd_tokenize};
 struct Rng(u64);
 impl Rng { fn next(&mut self) -> u64 { self.0 ^= self.0 << 13; self.0 ^= self.0 >> 7; self.0 ^= self.0 << 17; self.0 } fn below(&mut self, n: usize) -> usize { (self.next() % n.max(1) as u64) as usize } }
 const VALS: [&str; 20] = ["foo", "", "a b", "Joe's", "x\"y", "a\\b", "\\", "\"", "(a)", "a AND b", " lead", "caf\u{e9}", "a\\\"b", "tab\there", "!", "''", "Mot\u{f6}rhead\\Live", "^Beyonc\u{e9}\\.$", "\u{65e5}\u{672c}\\", "\u{fc}\"x"];
+/// a value: one of the fixed strings, or (half of the time) a random string of up to 7 characters over an alphabet in which the
+/// characters the two unescaping layers care about are frequent, so that runs of adjacent backslashes / quotes occur
+const ALPHA: [char; 10] = ['a', 'b', ' ', '\\', '\\', '"', '\'', '(', ')', '\u{e9}'];
+fn gen_value(r: &mut Rng) -> String {
+    if r.below(2) == 0 { return VALS[r.below(VALS.len())].to_string(); }
+    let n = r.below(8); (0..n).map(|_| ALPHA[r.below(ALPHA.len())]).collect()
+}
 const TAGS: [(&str, fn() -> Tag); 4] = [("Artist", || Tag::Artist), ("Album", || Tag::Album), ("MUSICBRAINZ_TRACKID", || Tag::MusicBrainzRecordingId), ("any", || Tag::any())];
 const OPS: [(&str, Operator); 5] = [("==", Operator::Equal), ("!=", Operator::NotEqual), ("contains", Operator::Contain), ("=~", Operator::Match), ("!~", Operator::NotMatch)];
 /// a random filter together with the tree it means (AND flattened: nesting up to associativity)
 fn gen_filter(r: &mut Rng, depth: usize) -> (Filter, T) {
     match if depth == 0 { 0 } else { r.below(4) } {
         0 | 1 => {
-            let (tn, tf) = TAGS[r.below(TAGS.len())]; let v = VALS[r.below(VALS.len())];
+            let (tn, tf) = TAGS[r.below(TAGS.len())]; let v = gen_value(r); let v = v.as_str();
             match r.below(4) {
-                0 => (Filter::tag(tf(), v), T::Tag(tn.into(), "==".into(), v.as_bytes().to_vec())),
+                0 => (Filter::tag(tf(), v.to_string()), T::Tag(tn.into(), "==".into(), v.as_bytes().to_vec())),
                 1 => (Filter::tag_exists(tf()), T::Tag(tn.into(), "!=".into(), vec![])),
                 2 => (Filter::tag_absent(tf()), T::Tag(tn.into(), "==".into(), vec![])),
-                _ => { let (on, o) = OPS[r.below(OPS.len())]; (Filter::new(tf(), o, v), T::Tag(tn.into(), on.into(), v.as_bytes().to_vec())) }
+                _ => { let (on, o) = OPS[r.below(OPS.len())]; (Filter::new(tf(), o, v.to_string()), T::Tag(tn.into(), on.into(), v.as_bytes().to_vec())) }
             }
         }
         2 => { let (f, t) = gen_filter(r, depth - 1); (if r.below(2) == 0 { f.negate() } else { !f }, T::Not(Box::new(t))) }
